@@ -1539,16 +1539,9 @@ theorem cstr_append (s t : Bytes) (h : ∀ b, b ∈ s → b ≠ 0) : cstr (s ++ 
     rw [ih (fun x hx => h x (by simp [hx]))]
 
 
-/-- size of the length field -/
-def lsz : Format → Nat
-  | .dwarf32 => 4
-  | .dwarf64 => 12
 
-/-- lengths a length field of the format can hold -/
-def LenOk (f : Format) (n : Nat) : Prop :=
-  match f with
-  | .dwarf32 => n < 0xffff_fff0
-  | .dwarf64 => n < 2 ^ 64
+
+
 
 theorem lengthField_length (e : Endian) (f : Format) (n : Nat) : (lengthField e f n).length = lsz f := by
   cases f <;> simp [lengthField, lsz, toBytes_length]
@@ -1609,32 +1602,11 @@ theorem parsePrefix_encoded (c : Cfg) (f : Format) (off idsz id : Nat) (body' re
 
 set_option linter.unusedSimpArgs false
 
-/-- side conditions on one augmentation argument -/
-def ArgWF (e : Endian) (_bases : SecBases) (asz : Nat) : AugArg → Prop
-  | .lsda enc => enc < 256 ∧ isValidEncoding enc = true
-  | .fdeEnc enc => enc < 256 ∧ isValidEncoding enc = true
-  | .signal => True
-  | .pers enc x => enc < 256 ∧ isValidEncoding enc = true ∧ enc ≠ 0xff ∧ peApplication enc ≠ 0x50 ∧
-      (encodeOperand e enc asz x).isSome = true
 
-/-- what one argument contributes to the parsed `Augmentation`, and the offset after its data -/
-def applyArg (e : Endian) (bases : SecBases) (asz : Nat) (a : Aug) (o : Nat) : AugArg → Option (Aug × Nat)
-  | .lsda enc => some ({ a with lsda := some enc }, o + 1)
-  | .fdeEnc enc => some ({ a with fdeEnc := some enc }, o + 1)
-  | .signal => some ({ a with signal := true }, o)
-  | .pers enc x =>
-    match neededBase enc { bases := bases, funcBase := none, asz := asz } (o + 1) with
-    | some b =>
-      some ({ a with personality := some (enc, Ptr.new enc ((b + x) % 2 ^ 64 % 2 ^ (8 * asz))) },
-            o + 1 + ((encodeOperand e enc asz x).getD []).length)
-    | none => none
 
-def applyArgs (e : Endian) (bases : SecBases) (asz : Nat) : List AugArg → Aug → Nat → Option (Aug × Nat)
-  | [], a, o => some (a, o)
-  | arg :: t, a, o =>
-    match applyArg e bases asz a o arg with
-    | some (a', o') => applyArgs e bases asz t a' o'
-    | none => none
+
+
+
 
 theorem parsePointerEncoding_byte (o enc : Nat) (t : Bytes) (h : enc < 256) (hv : isValidEncoding enc = true) :
     parsePointerEncoding ⟨o, UInt8.ofNat enc :: t⟩ = .ok (enc, ⟨o + 1, t⟩) := by
@@ -1710,47 +1682,6 @@ theorem augLoop_args (m : Mode) (e : Endian) (bases : Bases) (asz : Nat) (h1 : 1
         exact ih _ _ _ _ hwt h
 
 
-end Gimli.CfiEntry
-namespace Gimli.Spec.Frame
-open Gimli Gimli.Ints Gimli.CfiEntry
-
-/-- the address size a CIE ends up with -/
-def cieAsz (c : Cfg) (ci : ACie) : Nat := if ¬ c.eh ∧ ci.version = 4 then ci.asz else c.asz
-
-/-- offset of the first byte after the return-address register, for fields starting at `o` -/
-def ACie.afterRar (c : Cfg) (ci : ACie) (o : Nat) : Nat :=
-  o + 1 + ci.augString.length + 1 + (if ¬ c.eh ∧ ci.version = 4 then 2 else 0) +
-    (Leb.encodeU ci.caf).length + 1 + ci.rarBytes.length
-
-/-- offset of the augmentation data (after its length) -/
-def ACie.dataOff (c : Cfg) (ci : ACie) (o : Nat) : Nat :=
-  ci.afterRar c o + (Leb.encodeU (ci.augData c.e).length).length
-
-/-- offset of the initial instructions -/
-def ACie.instrOff (c : Cfg) (ci : ACie) (o : Nat) : Nat :=
-  if ci.args.isEmpty then ci.afterRar c o else ci.dataOff c o + (ci.augData c.e).length
-
-/-- the `Augmentation` the reader must report -/
-def ACie.expectAug (c : Cfg) (bases : Bases) (ci : ACie) (o : Nat) : Option Aug :=
-  if ci.args.isEmpty then none
-  else (applyArgs c.e bases.ehFrame ci.asz ci.args {} (ci.dataOff c o)).map Prod.fst
-
-/-- well-formedness of an abstract CIE for a section kind / configuration -/
-structure ACie.WF (c : Cfg) (bases : Bases) (ci : ACie) (o : Nat) : Prop where
-  hver : ci.version = 1 ∨ ci.version = 3 ∨ ci.version = 4
-  hasz : ci.asz = 1 ∨ ci.asz = 2 ∨ ci.asz = 4 ∨ ci.asz = 8
-  hsame : ¬ (¬ c.eh ∧ ci.version = 4) → ci.asz = c.asz
-  hcaf : ci.caf < 2 ^ 64
-  hdaf : -64 ≤ ci.daf ∧ ci.daf < 64
-  hrar : if ci.version = 1 then ci.rar < 256 else ci.rar < 2 ^ 16
-  hargs : ∀ arg, arg ∈ ci.args → ArgWF c.e bases.ehFrame ci.asz arg
-  hbase : (applyArgs c.e bases.ehFrame ci.asz ci.args {} (ci.dataOff c o)).isSome = true
-  hdata : (ci.augData c.e).length < 2 ^ 64
-
-end Gimli.Spec.Frame
-namespace Gimli.CfiEntry
-open Gimli Gimli.Ints Gimli.Spec.Frame
-set_option linter.unusedSimpArgs false
 
 theorem augChars_nonzero (ci : ACie) : ∀ b, b ∈ ci.augString → b ≠ 0 := by
   intro b hb
@@ -1885,35 +1816,6 @@ theorem cieFromPrefix_encoded (c : Cfg) (bases : Bases) (ci : ACie) (p : Prefix)
   rw [cieAug_enc c bases ci (ci.afterRar c o) o ci.instr hasz hargs hdata (by intro _; rfl) hbase]
   simp only [Out.bind_ok, Out.pure_eq, ACie.instrOff]
 
-end Gimli.CfiEntry
-namespace Gimli.Spec.Frame
-open Gimli Gimli.Ints Gimli.CfiEntry
-
-/-- width of the CIE id / CIE pointer field -/
-def idSize (eh : Bool) (f : Format) : Nat := if eh ∨ f = .dwarf32 then 4 else 8
-
-/-- the CIE id value -/
-def cieIdVal (eh : Bool) (f : Format) : Nat :=
-  if eh then 0 else match f with
-    | .dwarf32 => 0xffff_ffff
-    | .dwarf64 => 0xffff_ffff_ffff_ffff
-
-/-- total size of an encoded CIE -/
-def ACie.size (eh : Bool) (e : Endian) (ci : ACie) : Nat :=
-  lsz ci.format + (idSize eh ci.format + (ci.fields eh e).length)
-
-/-- the `CommonInformationEntry` the reader must report for `ci` encoded at offset `off` -/
-def ACie.expect (c : Cfg) (bases : Bases) (ci : ACie) (off : Nat) : Cie :=
-  let o := off + lsz ci.format + idSize c.eh ci.format
-  { offset := off, length := idSize c.eh ci.format + (ci.fields c.eh c.e).length, format := ci.format,
-    version := ci.version, aug := ci.expectAug c bases o, asz := cieAsz c ci, caf := ci.caf, daf := ci.daf,
-    rar := ci.rar, instr := ⟨ci.instrOff c o, ci.instr⟩ }
-
-end Gimli.Spec.Frame
-
-namespace Gimli.CfiEntry
-open Gimli Gimli.Ints Gimli.Spec.Frame
-set_option linter.unusedSimpArgs false
 
 theorem cieIdField_eq (eh : Bool) (e : Endian) (f : Format) :
     cieIdField eh e f = toBytes e (idSize eh f) (cieIdVal eh f) ∧ cieIdVal eh f < 256 ^ idSize eh f ∧
@@ -1967,123 +1869,6 @@ theorem cieFromOffset_encoded (c : Cfg) (bases : Bases) (ci : ACie) (pre post : 
   rw [cieFromPrefix_encoded c bases ci _ _ rfl hw]
   rfl
 
-end Gimli.CfiEntry
-namespace Gimli.Spec.Frame
-open Gimli Gimli.Ints Gimli.CfiEntry
-
-/-- abstract FDE (relative to the CIE it belongs to, given as the parsed CIE record, which knows
-its own offset, address size and the `R`/`L` encodings) -/
-structure AFde where
-  format : Format
-  /-- operand of the initial-location field (the address itself without `R`) -/
-  initOp : Nat
-  /-- the address-range field -/
-  range : Nat
-  /-- operand of the LSDA pointer (used iff the CIE has `L`) -/
-  lsdaOp : Nat
-  /-- unused bytes at the end of the augmentation data -/
-  augPad : Bytes
-  instr : Bytes
-
-def AFde.addrBytes (e : Endian) (cie : Cie) (fd : AFde) : Bytes :=
-  match cie.aug.bind (·.fdeEnc) with
-  | some enc => (encodeOperand e enc cie.asz fd.initOp).getD [] ++ (encodeOperand e enc cie.asz fd.range).getD []
-  | none => toBytes e cie.asz fd.initOp ++ toBytes e cie.asz fd.range
-
-def AFde.lsdaBytes (e : Endian) (cie : Cie) (fd : AFde) : Bytes :=
-  match cie.aug.bind (·.lsda) with
-  | some enc => (encodeOperand e enc cie.asz fd.lsdaOp).getD []
-  | none => []
-
-def AFde.augData (e : Endian) (cie : Cie) (fd : AFde) : Bytes := fd.lsdaBytes e cie ++ fd.augPad
-
-/-- augmentation data with its length: present iff the CIE has an augmentation -/
-def AFde.augBlock (e : Endian) (cie : Cie) (fd : AFde) : Bytes :=
-  match cie.aug with
-  | some _ => Leb.encodeU (fd.augData e cie).length ++ fd.augData e cie
-  | none => []
-
-/-- everything after the CIE pointer -/
-def AFde.fields (e : Endian) (cie : Cie) (fd : AFde) : Bytes :=
-  fd.addrBytes e cie ++ (fd.augBlock e cie ++ fd.instr)
-
-/-- the CIE pointer: distance back from the field in `.eh_frame`, section offset in `.debug_frame` -/
-def ciePtrVal (eh : Bool) (f : Format) (fdeOff cieOff : Nat) : Nat :=
-  if eh then fdeOff + lsz f - cieOff else cieOff
-
-/-- an FDE entry at offset `fdeOff`: length, CIE pointer, fields -/
-def encodeFde (eh : Bool) (e : Endian) (cie : Cie) (fdeOff : Nat) (fd : AFde) : Bytes :=
-  let body := toBytes e (idSize eh fd.format) (ciePtrVal eh fd.format fdeOff cie.offset) ++ fd.fields e cie
-  lengthField e fd.format body.length ++ body
-
-def AFde.size (eh : Bool) (e : Endian) (cie : Cie) (fd : AFde) : Nat :=
-  lsz fd.format + (idSize eh fd.format + (fd.fields e cie).length)
-
-/-- offset of the address fields -/
-def AFde.addrOff (eh : Bool) (fd : AFde) (fdeOff : Nat) : Nat := fdeOff + lsz fd.format + idSize eh fd.format
-
-/-- the initial location the reader must report -/
-def AFde.initial (c : Cfg) (bases : Bases) (cie : Cie) (fd : AFde) (fdeOff : Nat) : Nat :=
-  match cie.aug.bind (·.fdeEnc) with
-  | some enc =>
-    ((neededBase enc ⟨bases.ehFrame, none, cie.asz⟩ (fd.addrOff c.eh fdeOff)).getD 0
-      + fd.initOp) % 2 ^ 64 % 2 ^ (8 * cie.asz)
-  | none => fd.initOp
-
-/-- offset of the LSDA pointer (start of the augmentation data) -/
-def AFde.lsdaOff (c : Cfg) (cie : Cie) (fd : AFde) (fdeOff : Nat) : Nat :=
-  fd.addrOff c.eh fdeOff + (fd.addrBytes c.e cie).length + (Leb.encodeU (fd.augData c.e cie).length).length
-
-def AFde.instrOff (c : Cfg) (cie : Cie) (fd : AFde) (fdeOff : Nat) : Nat :=
-  match cie.aug with
-  | some _ => fd.lsdaOff c cie fdeOff + (fd.augData c.e cie).length
-  | none => fd.addrOff c.eh fdeOff + (fd.addrBytes c.e cie).length
-
-/-- the LSDA pointer the reader must report -/
-def AFde.lsda (c : Cfg) (bases : Bases) (cie : Cie) (fd : AFde) (fdeOff : Nat) : Option Ptr :=
-  match cie.aug.bind (·.lsda) with
-  | some enc =>
-    some (Ptr.new enc (((neededBase enc ⟨bases.ehFrame, some (fd.initial c bases cie fdeOff), cie.asz⟩
-      (fd.lsdaOff c cie fdeOff)).getD 0 + fd.lsdaOp) % 2 ^ 64 % 2 ^ (8 * cie.asz)))
-  | none => none
-
-/-- the `FrameDescriptionEntry` the reader must report -/
-def AFde.expect (c : Cfg) (bases : Bases) (cie : Cie) (fd : AFde) (fdeOff : Nat) : Fde :=
-  { offset := fdeOff, length := idSize c.eh fd.format + (fd.fields c.e cie).length, format := fd.format,
-    cie := cie, initial := fd.initial c bases cie fdeOff, range := fd.range,
-    lsda := fd.lsda c bases cie fdeOff, instr := ⟨fd.instrOff c cie fdeOff, fd.instr⟩ }
-
-/-- the partially parsed FDE the iterator must yield -/
-def AFde.expectPartial (c : Cfg) (cie : Cie) (fd : AFde) (fdeOff : Nat) : PartialFde :=
-  { offset := fdeOff, length := idSize c.eh fd.format + (fd.fields c.e cie).length, format := fd.format,
-    cieOffset := cie.offset, rest := ⟨fd.addrOff c.eh fdeOff, fd.fields c.e cie⟩ }
-
-/-- a pointer field is encodable and its base is provided -/
-def PtrOk (e : Endian) (enc : Nat) (p : PeParams) (off x : Nat) : Prop :=
-  isValidEncoding enc = true ∧ enc ≠ 0xff ∧ peApplication enc ≠ 0x50 ∧ 1 ≤ p.asz ∧ p.asz ≤ 8 ∧
-  (neededBase enc p off).isSome = true ∧ (encodeOperand e enc p.asz x).isSome = true
-
-structure AFde.WF (c : Cfg) (bases : Bases) (cie : Cie) (fd : AFde) (fdeOff : Nat) : Prop where
-  hlen : LenOk fd.format (idSize c.eh fd.format + (fd.fields c.e cie).length)
-  hptr : ciePtrVal c.eh fd.format fdeOff cie.offset < 256 ^ idSize c.eh fd.format
-  hnotcie : isCie c fd.format (ciePtrVal c.eh fd.format fdeOff cie.offset) = false
-  hback : c.eh = true → cie.offset ≤ fdeOff + lsz fd.format
-  haddr : match cie.aug.bind (·.fdeEnc) with
-    | some enc => PtrOk c.e enc ⟨bases.ehFrame, none, cie.asz⟩
-        (fd.addrOff c.eh fdeOff) fd.initOp ∧ (encodeOperand c.e enc cie.asz fd.range).isSome = true
-    | none => (cie.asz = 1 ∨ cie.asz = 2 ∨ cie.asz = 4 ∨ cie.asz = 8) ∧ fd.initOp < 2 ^ (8 * cie.asz) ∧
-        fd.range < 2 ^ (8 * cie.asz)
-  hlsda : match cie.aug.bind (·.lsda) with
-    | some enc => PtrOk c.e enc ⟨bases.ehFrame, some (fd.initial c bases cie fdeOff), cie.asz⟩
-        (fd.lsdaOff c cie fdeOff) fd.lsdaOp
-    | none => True
-  hdata : (fd.augData c.e cie).length < 2 ^ 64
-
-end Gimli.Spec.Frame
-
-namespace Gimli.CfiEntry
-open Gimli Gimli.Ints Gimli.Spec.Frame
-set_option linter.unusedSimpArgs false
 
 theorem pep_ptrOk (m : Mode) (e : Endian) (enc : Nat) (p : PeParams) (off x : Nat) (t : Bytes)
     (h : PtrOk e enc p off x) :
@@ -2217,50 +2002,6 @@ theorem parseCfiEntry_fde (c : Cfg) (bases : Bases) (cie : Cie) (fd : AFde) (off
   rw [hpf]
   simp only [Out.bind_ok, Out.pure_eq, AFde.size, Nat.add_assoc]
 
-end Gimli.CfiEntry
-namespace Gimli.Spec.Frame
-open Gimli Gimli.Ints Gimli.CfiEntry
-
-/-- an abstract entry; an FDE names the (parsed) CIE it belongs to -/
-inductive AEntry where
-  | cie (ci : ACie)
-  | fde (cie : Cie) (fd : AFde)
-
-def AEntry.size (eh : Bool) (e : Endian) : AEntry → Nat
-  | .cie ci => ci.size eh e
-  | .fde k fd => fd.size eh e k
-
-/-- the entries laid out one after the other from section offset `off` -/
-def encodeEntries (eh : Bool) (e : Endian) : Nat → List AEntry → Bytes
-  | _, [] => []
-  | off, .cie ci :: t => encodeCie eh e ci ++ encodeEntries eh e (off + ci.size eh e) t
-  | off, .fde cie fd :: t => encodeFde eh e cie off fd ++ encodeEntries eh e (off + fd.size eh e cie) t
-
-/-- a whole `.eh_frame` / `.debug_frame` section: the entries, optionally followed by a zero
-length word (the `.eh_frame` terminator; skipped in `.debug_frame`) -/
-def encodeFrameSection (eh : Bool) (e : Endian) (es : List AEntry) (terminator : Bool) : Bytes :=
-  encodeEntries eh e 0 es ++ (if terminator then [0, 0, 0, 0] else [])
-
-/-- what the iterator must yield -/
-def expectEntries (c : Cfg) (bases : Bases) : Nat → List AEntry → List Entry
-  | _, [] => []
-  | off, .cie ci :: t => .cie (ci.expect c bases off) :: expectEntries c bases (off + ci.size c.eh c.e) t
-  | off, .fde cie fd :: t => .fde (fd.expectPartial c cie off) :: expectEntries c bases (off + fd.size c.eh c.e cie) t
-
-/-- every entry is well formed at the offset where it is laid out -/
-def EntriesWF (c : Cfg) (bases : Bases) : Nat → List AEntry → Prop
-  | _, [] => True
-  | off, .cie ci :: t =>
-    ci.WF c bases (off + lsz ci.format + idSize c.eh ci.format) ∧
-    LenOk ci.format (idSize c.eh ci.format + (ci.fields c.eh c.e).length) ∧
-    EntriesWF c bases (off + ci.size c.eh c.e) t
-  | off, .fde cie fd :: t => fd.WF c bases cie off ∧ EntriesWF c bases (off + fd.size c.eh c.e cie) t
-
-end Gimli.Spec.Frame
-
-namespace Gimli.CfiEntry
-open Gimli Gimli.Ints Gimli.Spec.Frame
-set_option linter.unusedSimpArgs false
 
 theorem encodeCie_length (c : Cfg) (ci : ACie) : (encodeCie c.eh c.e ci).length = ci.size c.eh c.e := by
   rw [encodeCie_eq]
@@ -2368,20 +2109,6 @@ theorem encodeEntries_length (c : Cfg) : ∀ (es : List AEntry) (off : Nat),
       simp only [encodeEntries, List.length_append, List.length_cons, encodeFde_length]
       omega
 
-end Gimli.CfiEntry
-namespace Gimli.Spec.Frame
-open Gimli Gimli.Ints Gimli.CfiEntry
-
-/-- total encoded size of a list of entries -/
-def totalSize (eh : Bool) (e : Endian) : List AEntry → Nat
-  | [] => 0
-  | en :: t => en.size eh e + totalSize eh e t
-
-end Gimli.Spec.Frame
-
-namespace Gimli.CfiEntry
-open Gimli Gimli.Ints Gimli.Spec.Frame
-set_option linter.unusedSimpArgs false
 
 theorem encodeEntries_split (c : Cfg) (bases : Bases) (ci : ACie) (es2 : List AEntry) :
     ∀ (es1 : List AEntry) (off : Nat),
@@ -2435,54 +2162,6 @@ theorem cieFromOffset_section (c : Cfg) (bases : Bases) (es1 es2 : List AEntry) 
   rw [h2] at this
   exact this
 
-end Gimli.CfiEntry
-namespace Gimli.Spec.Frame
-open Gimli Gimli.Ints Gimli.CfiEntry
-
-/-- abstract `.eh_frame_hdr`: the three encoding bytes, the operand of the `eh_frame_ptr` field and
-the table rows as operand pairs (initial location, FDE address) -/
-structure AHdr where
-  ptrEnc : Nat
-  cntEnc : Nat
-  tblEnc : Nat
-  ptrOp : Nat
-  rows : List (Nat × Nat)
-
-def op (e : Endian) (enc asz x : Nat) : Bytes := (encodeOperand e enc asz x).getD []
-
-def AHdr.rowBytes (e : Endian) (asz : Nat) (h : AHdr) (r : Nat × Nat) : Bytes :=
-  op e h.tblEnc asz r.1 ++ op e h.tblEnc asz r.2
-
-def AHdr.tableBytes (e : Endian) (asz : Nat) (h : AHdr) : Bytes := h.rows.flatMap (h.rowBytes e asz)
-
-/-- version 1, three encodings, `eh_frame_ptr`, `fde_count`, the table -/
-def encodeHdr (e : Endian) (asz : Nat) (h : AHdr) : Bytes :=
-  1 :: UInt8.ofNat h.ptrEnc :: UInt8.ofNat h.cntEnc :: UInt8.ofNat h.tblEnc ::
-    (op e h.ptrEnc asz h.ptrOp ++ (op e h.cntEnc asz h.rows.length ++ h.tableBytes e asz))
-
-/-- offset of the table -/
-def AHdr.tableOff (e : Endian) (asz : Nat) (h : AHdr) : Nat :=
-  4 + (op e h.ptrEnc asz h.ptrOp).length + (op e h.cntEnc asz h.rows.length).length
-
-structure AHdr.WF (e : Endian) (bases : Bases) (asz : Nat) (h : AHdr) : Prop where
-  hp : h.ptrEnc < 256
-  hc : h.cntEnc < 256 ∧ isValidEncoding h.cntEnc = true ∧ h.cntEnc ≠ 0xff ∧ h.cntEnc = peFormat h.cntEnc
-  ht : h.tblEnc < 256 ∧ isValidEncoding h.tblEnc = true ∧ h.tblEnc ≠ 0xff
-  hptr : PtrOk e h.ptrEnc ⟨bases.ehFrameHdr, none, asz⟩ 4 h.ptrOp
-  hcnt : (encodeOperand e h.cntEnc asz h.rows.length).isSome = true
-
-/-- the `ParsedEhFrameHdr` the reader must report -/
-def AHdr.expect (e : Endian) (bases : Bases) (asz : Nat) (h : AHdr) : Hdr :=
-  { asz := asz,
-    ehFramePtr := Ptr.new h.ptrEnc (((neededBase h.ptrEnc ⟨bases.ehFrameHdr, none, asz⟩ 4).getD 0 + h.ptrOp)
-      % 2 ^ 64 % 2 ^ (8 * asz)),
-    fdeCount := h.rows.length, tableEnc := h.tblEnc, table := ⟨h.tableOff e asz, h.tableBytes e asz⟩ }
-
-end Gimli.Spec.Frame
-
-namespace Gimli.CfiEntry
-open Gimli Gimli.Ints Gimli.Spec.Frame
-set_option linter.unusedSimpArgs false
 
 theorem parseHdr_encoded (m : Mode) (e : Endian) (bases : Bases) (asz : Nat) (h : AHdr)
     (hw : h.WF e bases asz) :
@@ -2510,24 +2189,6 @@ theorem parseHdr_encoded (m : Mode) (e : Endian) (bases : Bases) (asz : Nat) (h 
   rw [pev_some e h.cntEnc asz h.rows.length _ _ hcnt]
   simp only [Out.bind_ok, Out.pure_eq, AHdr.expect, AHdr.tableOff, Spec.Frame.op]
 
-end Gimli.CfiEntry
-namespace Gimli.Spec.Frame
-open Gimli Gimli.Ints Gimli.CfiEntry
-
-/-- the pointer a table field with operand `x` at section offset `off` denotes -/
-def AHdr.fieldVal (bases : Bases) (asz : Nat) (h : AHdr) (off x : Nat) : Nat :=
-  ((neededBase h.tblEnc ⟨bases.ehFrameHdr, none, asz⟩ off).getD 0 + x) % 2 ^ 64 % 2 ^ (8 * asz)
-
-/-- both fields of row `i` (at table offset `T0`) are encodable and their bases provided -/
-def AHdr.RowOk (e : Endian) (bases : Bases) (asz : Nat) (h : AHdr) (T0 size i : Nat) (r : Nat × Nat) : Prop :=
-  PtrOk e h.tblEnc ⟨bases.ehFrameHdr, none, asz⟩ (T0 + i * (size * 2)) r.1 ∧
-  PtrOk e h.tblEnc ⟨bases.ehFrameHdr, none, asz⟩ (T0 + i * (size * 2) + size) r.2
-
-end Gimli.Spec.Frame
-
-namespace Gimli.CfiEntry
-open Gimli Gimli.Ints Gimli.Spec.Frame
-set_option linter.unusedSimpArgs false
 
 theorem op_length (e : Endian) (enc asz x size : Nat) (hs : tableEntrySize enc = some size)
     (hx : (encodeOperand e enc asz x).isSome = true) : (Spec.Frame.op e enc asz x).length = size := by
@@ -2631,16 +2292,9 @@ theorem flatMap_length {α : Type} (f : α → Bytes) (rs : Nat) :
     rw [h r (by simp), ih (fun x hx => h x (by simp [hx])), Nat.succ_mul]
     omega
 
-/-- key of row `i` of an abstract table laid out at offset `T0` -/
-def hdrKey (bases : Bases) (asz : Nat) (h : AHdr) (T0 size i : Nat) : Nat :=
-  match h.rows[i]? with
-  | some r => h.fieldVal bases asz (T0 + i * (size * 2)) r.1
-  | none => 0
 
-def hdrVal (bases : Bases) (asz : Nat) (h : AHdr) (T0 size i : Nat) : Nat :=
-  match h.rows[i]? with
-  | some r => h.fieldVal bases asz (T0 + i * (size * 2) + size) r.2
-  | none => 0
+
+
 
 theorem ptr_new_direct (enc v : Nat) (h : peIndirect enc = false) : Ptr.new enc v = .direct v := by
   unfold Ptr.new; simp [h]
